@@ -26,10 +26,15 @@ def start_session(exe, seed, cfg):
     s.op(f"net dup {cfg['dup']}")
     optsA = cfg["regA"] | (32 if cfg.get("consent") else 0) | cfg.get("extra_opts", 0)
     optsB = cfg["regB"] | (32 if cfg.get("consent") else 0) | cfg.get("extra_opts", 0)
+    stun = ""
+    if cfg.get("stunsrv"):
+        # a scripted STUN server (behaviour script cfg["stunsrv"]) both agents gather against
+        s.op(f"server 127.0.0.50:3478 stun {cfg['stunsrv']}")
+        stun = " stunsrv=127.0.0.50:3478"
     s.op(f"new A ctrl={cfg['ctrlA']} compat=0 opts={optsA} rc={cfg['rc']} rto={cfg['rto']} "
-         f"keepalive={cfg.get('keepalive', 0)} addrs=" + ",".join(f"127.0.0.{i + 1}" for i in range(cfg["naA"])))
+         f"keepalive={cfg.get('keepalive', 0)} addrs=" + ",".join(f"127.0.0.{i + 1}" for i in range(cfg["naA"])) + stun)
     s.op(f"new B ctrl={cfg['ctrlB']} compat=0 opts={optsB} rc={cfg['rc']} rto={cfg['rto']} "
-         f"keepalive={cfg.get('keepalive', 0)} addrs=" + ",".join(f"127.0.1.{i + 1}" for i in range(cfg["naB"])))
+         f"keepalive={cfg.get('keepalive', 0)} addrs=" + ",".join(f"127.0.1.{i + 1}" for i in range(cfg["naB"])) + stun)
     s.op(f"stream A {cfg['ncomp']}")
     s.op(f"stream B {cfg['ncomp']}")
     s.op("attach A 1")
